@@ -20,9 +20,13 @@ def hex (b : Bytes) : String :=
 def unlist (s : String) : List Bytes := if s == "-" then [] else (s.splitOn ",").map unhex
 def relist (l : List Bytes) : String := if l.isEmpty then "-" else ",".intercalate (l.map hex)
 
+/-- the generated directory as a file system: a name with trailing slashes names a directory (`d/` is `d`; `file/` does not exist) -/
 def lookup (files : List (Bytes × Entry)) : Fs := fun n =>
-  match files.find? (·.1 == n) with
-  | some (_, e) => e
+  let stripped := (n.reverse.dropWhile (· == 47)).reverse
+  let slash := stripped.length < n.length && !stripped.isEmpty
+  match files.find? (·.1 == (if slash then stripped else n)) with
+  | some (_, .dir) => .dir
+  | some (_, e) => if slash then .missing else e
   | none => .missing
 
 partial def loop (h : IO.FS.Stream) (files : List (Bytes × Entry)) (n bad : Nat) : IO Nat := do
